@@ -41,7 +41,7 @@ import (
 // Canonical value tokens <val>:
 //   null | u8:N | i16:N | i32:N | i64:N | u16:N | u32:N | u64:N | f32:<IEEE bits, decimal> | f64:<bits> |
 //   b:0 | b:1 | bytes:<hex> | str:<hex of the string's bytes> ('-' = empty) |
-//   dec:<unscaled integer>:<Precision>:<Scale> | decnull (= &Decimal{i:nil}, the decoded NULL decimal) |
+//   dec:<unscaled integer>:<Precision>:<Scale> | decr:… (the same decimal after a rejected SetString) | decnull (= &Decimal{i:nil}, the decoded NULL decimal) |
 //   t:<year>-<month>-<day>-<hour>-<min>-<sec>-<nsec>   (UTC; a negative year has a leading '-')
 
 var vle = binary.LittleEndian
@@ -160,6 +160,15 @@ func valParseTime(s string) (time.Time, bool) {
 	return time.Date(f[0], time.Month(f[1]), f[2], f[3], f[4], f[5], f[6], time.UTC), true
 }
 
+// valParsePure: the value a token denotes, for the oracles — a `decr:` token denotes the same decimal as
+// `dec:`; only the implementation under test builds it through the rejected SetString
+func valParsePure(s string) (interface{}, bool) {
+	if strings.HasPrefix(s, "decr:") {
+		s = "dec:" + s[5:]
+	}
+	return valParse(s)
+}
+
 func valParse(s string) (interface{}, bool) {
 	if s == "null" {
 		return nil, true
@@ -204,7 +213,7 @@ func valParse(s string) (interface{}, bool) {
 	case len(p) == 2 && p[0] == "str":
 		b := unhx(p[1])
 		return string(b), b != nil
-	case len(p) == 4 && p[0] == "dec":
+	case len(p) == 4 && (p[0] == "dec" || p[0] == "decr"):
 		i, ok := decBig(p[1])
 		pr, ok1 := valNat(p[2], 31)
 		sc, ok2 := valNat(p[3], 31)
@@ -214,6 +223,13 @@ func valParse(s string) (interface{}, bool) {
 		d, _ := asetypes.NewDecimal(0, 0)
 		d.Precision, d.Scale = int(pr), int(sc)
 		decInstall(d, i)
+		if p[0] == "decr" && pr >= 1 && pr <= 38 {
+			// the decimal object has been through a REJECTED SetString since it got its value (a number
+			// with more digits than the precision): "if an error is returned dec is untouched"
+			if err := d.SetString("-" + strings.Repeat("9", int(pr)+1)); err == nil {
+				return nil, false
+			}
+		}
 		return d, true
 	case len(p) == 2 && p[0] == "t":
 		return valParseTime(p[1])
@@ -618,6 +634,9 @@ func valValueInDomain(t asetypes.DataType, l int64, v interface{}) bool {
 
 func valTokKind(tok string) string {
 	if i := strings.IndexByte(tok, ':'); i >= 0 {
+		if tok[:i] == "decr" {
+			return "dec"
+		}
 		return tok[:i]
 	}
 	return tok
@@ -682,7 +701,7 @@ func valOracle(line, out string) string {
 			return ""
 		}
 		mode, ok := valDomain[t][valTokKind(f[4])]
-		v, okv := valParse(f[4])
+		v, okv := valParsePure(f[4])
 		if !ok || !okv || !valLenOK(t, l, v) || !valValueInDomain(t, l, v) {
 			return "" // outside the quantifier
 		}
@@ -1022,6 +1041,9 @@ func valEachValue(tier string, rng *rand.Rand, emit func(t asetypes.DataType, l 
 						t = asetypes.NUMN
 					}
 					emit(t, int64(1+(p+1)/2), fmt.Sprintf("dec:%s:%d:%d", w, p, s), "decimal")
+					if (p+s+len(w.String()))%5 == 0 {
+						emit(t, int64(1+(p+1)/2), fmt.Sprintf("decr:%s:%d:%d", w, p, s), "decimal-after-rejected-set")
+					}
 				}
 			}
 		}
